@@ -160,6 +160,43 @@ class AppSecretHeader(NeverIndexedHeaderTuple):
     __slots__ = ()
 
 
+class _DictSub(dict):
+    """an application's own dict subclass"""
+
+
+def with_options(cls, *args):
+    """construct `cls` passing a non-default value for every optional constructor parameter this harness does not know
+    (a new option of the library under test): sizes for size-like integers, a few header names for collections, the opposite
+    for booleans. On a library without such parameters this is the plain constructor."""
+    import inspect
+    known = {'Encoder': [], 'Decoder': ['max_header_list_size'], 'HeaderTable': []}[cls.__name__]
+    kw = {}
+    try:
+        params = inspect.signature(cls.__init__).parameters
+    except (TypeError, ValueError):
+        params = {}
+    for name, prm in params.items():
+        if name == 'self' or name in known or prm.kind in (prm.VAR_POSITIONAL, prm.VAR_KEYWORD):
+            continue
+        if prm.default is inspect.Parameter.empty:
+            continue
+        d = prm.default
+        annot = str(prm.annotation)
+        if isinstance(d, bool):
+            kw[name] = not d
+        elif isinstance(d, int) or ('int' in annot and 'size' in name):
+            kw[name] = 8192
+        elif isinstance(d, (set, frozenset, list, tuple)) or any(t in annot for t in ('Iterable', 'set', 'list', 'Sequence', 'Collection')) \
+                or any(t in name for t in ('name', 'never', 'sensitive', 'index')):
+            kw[name] = [b'x-a', b'cookie', b'n', b':path', b'k', b'custom-key']
+        elif d is None and 'size' in name:
+            kw[name] = 8192
+    try:
+        return cls(*args, **kw)
+    except Exception:
+        return cls(*args)
+
+
 SHARED = bytearray()      # a receive buffer the "application" reuses: overwritten in place for every #buf=shared op
 
 
@@ -199,6 +236,10 @@ def step(toks, ann):
         return 'ok'
     if op == 'ienc':
         try:
+            if ann.get('kw') == '1':
+                return 'ok ' + hx(H.encode_integer(integer=int(toks[1]), prefix_bits=int(toks[2])))
+            if ann.get('kw') == 'mixed':
+                return 'ok ' + hx(H.encode_integer(int(toks[1]), prefix_bits=int(toks[2])))
             return 'ok ' + hx(H.encode_integer(int(toks[1]), int(toks[2])))
         except Exception as e:
             return canon(e)
@@ -212,7 +253,12 @@ def step(toks, ann):
             data = unhex(toks[1])
             if ann.get('buf') == 'memoryview':
                 data = memoryview(data)
-            v, k = H.decode_integer(data, int(toks[2]))
+            if ann.get('kw') == '1':
+                v, k = H.decode_integer(data=data, prefix_bits=int(toks[2]))
+            elif ann.get('kw') == 'mixed':
+                v, k = H.decode_integer(data, prefix_bits=int(toks[2]))
+            else:
+                v, k = H.decode_integer(data, int(toks[2]))
             return 'ok %s %d' % (hex(v), k)
         except Exception as e:
             return canon(e)
@@ -298,6 +344,15 @@ def step(toks, ann):
         except Exception as e:
             return canon(e) + (' | ' + show_table(t) if op in ('tadd', 'tmax') else '')
     # ---------------- Encoder
+    if op == 'enewx':
+        encs[toks[1]] = with_options(Encoder)
+        return 'ok | ' + show_enc(encs[toks[1]])
+    if op == 'tnewx':
+        tables[toks[1]] = with_options(HeaderTable)
+        return 'ok | ' + show_table(tables[toks[1]])
+    if op == 'dnewx':
+        decs[toks[1]] = with_options(Decoder, int(toks[2])) if len(toks) > 2 else with_options(Decoder)
+        return 'ok | ' + show_dec(decs[toks[1]])
     if op == 'enew':
         encs[toks[1]] = Encoder()
         return 'ok | ' + show_enc(encs[toks[1]])
@@ -349,6 +404,15 @@ def step(toks, ann):
                     for s in fs:
                         k, n, v = s.split(':')
                         c[mkstr(k[1], n)] = mkstr(k[2], v)
+                    dk = ann.get('dictkind')
+                    if dk == 'ordered':
+                        import collections
+                        c = collections.OrderedDict(c)
+                    elif dk == 'default':
+                        import collections
+                        c = collections.defaultdict(bytes, c)
+                    elif dk == 'sub':
+                        c = _DictSub(c)
                 else:
                     c = [parse_form(s) for s in fs]
                     if toks[3] == 'iter':
